@@ -1,6 +1,9 @@
 package main
 
 import (
+	"crypto/md5"
+	"crypto/sha1"
+	"encoding/hex"
 	"go/token"
 	"fmt"
 	"go/types"
@@ -911,6 +914,49 @@ func init() {
 	intrinsicTable["sort.Slice"] = inSortSlice
 	intrinsicTable["sort.SliceStable"] = inSortSlice
 	intrinsicTable["sort.Strings"] = inSortStrings
+	intrinsicTable["github.com/tidwall/tile38/internal/server.Sha1Sum"] = inSha1Sum
+	intrinsicTable["crypto/md5.Sum"] = inMd5Sum
+	intrinsicTable["fmt.Sprint"] = inSprint
+	intrinsicTable["crypto/internal/boring.Unreachable"] = inNoop
+}
+
+func inSprint(ex *Exec, fn *ssa.Function, args []Value) (Value, bool) {
+	var goArgs []interface{}
+	for _, e := range ex.sliceElems(args[0].(SliceV)) {
+		iv, ok := e.(IfaceV)
+		if !ok {
+			ex.inconclusive("fmt.Sprint operand")
+		}
+		g, ok := ex.toGo(iv)
+		if !ok {
+			ex.inconclusive("fmt.Sprint with a symbolic or unsupported operand")
+		}
+		goArgs = append(goArgs, g)
+	}
+	return ex.strConst(fmt.Sprint(goArgs...)), true
+}
+
+// hashes on concrete input run natively (their block functions are assembly)
+func inSha1Sum(ex *Exec, fn *ssa.Function, args []Value) (Value, bool) {
+	s, ok := concreteStr(args[0])
+	if !ok {
+		ex.inconclusive("sha1 of symbolic data")
+	}
+	h := sha1.Sum([]byte(s))
+	return ex.strConst(hex.EncodeToString(h[:])), true
+}
+
+func inMd5Sum(ex *Exec, fn *ssa.Function, args []Value) (Value, bool) {
+	s, ok := (&StrV{b: ex.sliceBytes(args[0].(SliceV))}).concrete()
+	if !ok {
+		ex.inconclusive("md5 of symbolic data")
+	}
+	h := md5.Sum([]byte(s))
+	e := make([]Value, 16)
+	for i := range e {
+		e[i] = ex.byteConst[h[i]]
+	}
+	return ArrayV{e}, true
 }
 
 // sort.Slice / sort.SliceStable (reflection-based swapper in the real code): a stable insertion sort
